@@ -341,9 +341,15 @@ def make_pair(net, variant, rng):
         k1 = rng.randrange(0, max(1, n - 1))
         t1 = start + timedelta(seconds=net["step"] * k1 + rng.choice([0, 1, net["step"] // 2]))
         t2 = t1 + timedelta(seconds=rng.choice([net["step"], net["step"] // 2 + 1, 2 * net["step"]]))
-        kind = rng.choice(["finite_burn", "finite_maneuver"])
+        kind = rng.choice(["finite_burn", "finite_maneuver", "impulse"])
 
         def burn(tid, vec, mag):
+            if kind == "impulse":
+                # two impulses of two satellites inside one physics step, at different instants
+                t1i = t1 if t1 > start else t1 + timedelta(seconds=1)  # an impulse at the start instant itself lies outside the span
+                tt = t1i if tid != 19001 else t1i + timedelta(seconds=rng.choice([1, 2, max(1, net["step"] // 3)]))
+                return {"scope": "agent_propagation", "scope_instance_id": tid, "start_time": sk.iso(tt), "event_type": "impulse", "thrust_vector": [100 * c for c in vec],
+                        "thrust_frame": "ntw", "planned": rng.random() < 0.5}
             ev = {"scope": "agent_propagation", "scope_instance_id": tid, "start_time": sk.iso(t1), "end_time": sk.iso(t2), "event_type": kind, "planned": rng.random() < 0.5}
             if kind == "finite_burn":
                 ev.update({"acc_vector": vec, "thrust_frame": "ntw"})
